@@ -51,8 +51,10 @@ Record algs := mkA { a_hdr_cs : Z; a_bs_cs : Z; a_hdr_sc : Z; a_bs_sc : Z;
    before it) and the keys it was protected with, packet_length *)
 Record wrec := mkW { w_pkt : pkt; w_seq : Z; w_epoch : Z; w_keys : option keys; w_len : Z }.
 
+(* [legacy] is a switch of the MODEL, not of asyncssh: false = the code as it is; true = the code before
+   fix 97cb05d (finding C11-1), where the rekey trigger was also evaluated for MSG_IGNORE. *)
 Record cfg := mkC { is_client : bool; rekey_bytes : Z; rekey_seconds : Z;
-                    kexinit_len : Z; extinfo_len : Z }.
+                    kexinit_len : Z; extinfo_len : Z; legacy : bool }.
 
 (* packets the transport itself originates (tag -1) *)
 Definition IGN_pkt : pkt := mkP MSG_IGNORE 5 (-1).                 (* Byte(2) + String(b'') *)
@@ -93,11 +95,12 @@ Definition read_clock (s : sndst) : Z * sndst :=
   end.
 
 (* if (self._auth_complete and self._kex_complete and
+       pkttype != MSG_IGNORE and
        (self._rekey_bytes_sent >= self._rekey_bytes or
         (self._rekey_seconds and time.monotonic() >= self._rekey_time))):
    Python evaluates left to right with short circuit: the clock is read only when reached. *)
-Definition trigger (c : cfg) (e : env) (s : sndst) : bool * sndst :=
-  if e_auth_complete e && kex_complete s then
+Definition trigger (c : cfg) (e : env) (ty : Z) (s : sndst) : bool * sndst :=
+  if e_auth_complete e && kex_complete s && (legacy c || negb (ty =? MSG_IGNORE)) then
     if rekey_bytes c <=? rekey_sent s then (true, s)
     else if rekey_seconds c =? 0 then (false, s)
     else let '(t, s1) := read_clock s in (rekey_time s1 <=? t, s1)
@@ -121,8 +124,8 @@ Definition send_kexinit (c : cfg) (e : env) (s : sndst) : sndst :=
   emit e (KEXINIT_pkt c) s2.
 
 (* first statement of send_packet: the trigger, then _send_kexinit(); _kexinit_sent = True *)
-Definition send_pre (c : cfg) (e : env) (s : sndst) : sndst :=
-  let '(fire, s1) := trigger c e s in
+Definition send_pre (c : cfg) (e : env) (ty : Z) (s : sndst) : sndst :=
+  let '(fire, s1) := trigger c e ty s in
   if fire then set_kexinit_sent true (send_kexinit c e s1) else s1.
 
 (* if (((pkttype in {MSG_DEBUG, MSG_SERVICE_REQUEST, MSG_SERVICE_ACCEPT} or
@@ -139,12 +142,13 @@ Definition defer_cond (e : env) (kc : bool) (t : Z) : bool :=
 
 Definition encrypting (e : env) : bool := match e_keys e with Some _ => true | None => false end.
 
-(* the nested self.send_packet(MSG_IGNORE, String(b'')): the trigger is evaluated AGAIN (a second
-   clock reading); type 2 is never deferred and gets no nested IGNORE *)
-Definition send_ignore (c : cfg) (e : env) (s : sndst) : sndst := emit e IGN_pkt (send_pre c e s).
+(* the nested self.send_packet(MSG_IGNORE, String(b'')): its first statement is the trigger again - off
+   for type 2 since 97cb05d; before that fix it was evaluated a second time, with a second clock
+   reading ([legacy]).  Type 2 is never deferred and gets no nested IGNORE. *)
+Definition send_ignore (c : cfg) (e : env) (s : sndst) : sndst := emit e IGN_pkt (send_pre c e MSG_IGNORE s).
 
 Definition send_packet (c : cfg) (e : env) (p : pkt) (s : sndst) : sndst :=
-  let s1 := send_pre c e s in
+  let s1 := send_pre c e (p_ty p) s in
   if defer_cond e (kex_complete s1) (p_ty p) then set_deferred (deferred s1 ++ [p]) s1
   else
     let s2 := if encrypting e && (MSG_KEX_LAST <? p_ty p) then send_ignore c e s1 else s1 in
